@@ -191,9 +191,6 @@ Section WithGraph.
   Variable dg : list scope -> GraphP -> res IGraph.
   Variable sg : IGraph -> res GraphP.
   Variable empty_g : GraphP.
-  (* fixB: the tree has the repair of finding "quantization-annotation-duplicated" (the output loop of
-     serialize_graph_into skips values that are graph inputs or initializers) *)
-  Variable fixB : bool.
 
   (* serde._deserialize_attribute *)
   Definition deser_attr (scopes : list scope) (a : AttrP GraphP) : res (IAttr IGraph) :=
@@ -441,7 +438,7 @@ Section WithGraph.
                     Ok (np, infos)) (ig_nodes g) ;;
     outs <- mapM (fun o => v <- (match o with OKey k => getv vals k | OFresh v => Ok v end) ;;
                            Ok (ser_value [] v,
-                               if fixB && (in_str (v_name v) (ig_inputs g) || in_str (v_name v) (ig_inits g))
+                               if in_str (v_name v) (ig_inputs g) || in_str (v_name v) (ig_inits g)   (* already added above *)
                                then [] else ser_quant v)) (ig_outputs g) ;;
     let node_infos := concat (map snd nodes) in
     Ok (mkGraphP (truthy (ig_name g)) (truthy (ig_doc g))
@@ -463,19 +460,18 @@ Fixpoint deser_graph (fuel : nat) (outer : list scope) (g : GraphP) : res IGraph
   | S f => deser_graph_body (deser_graph f) empty_graph outer g
   end.
 
-Fixpoint ser_graph (fixB : bool) (fuel : nat) (irv : option Z) (g : IGraph) : res GraphP :=
+Fixpoint ser_graph (fuel : nat) (irv : option Z) (g : IGraph) : res GraphP :=
   match fuel with
   | O => Raise OtherError
-  | S f => ser_graph_body (ser_graph fixB f None) fixB irv g
+  | S f => ser_graph_body (ser_graph f None) irv g
   end.
 
 (* ================================================================== functions *)
-(* serde.deserialize_function.  fixA: the tree has the repair of finding "function-input-value-info-dropped"
-   (value_info entries naming a function input are applied to the input values) *)
-Definition deser_function (fixA : bool) (fuel : nat) (f : FunctionP) : res IFunction :=
+(* serde.deserialize_function (value_info entries naming a function input are applied to the inputs) *)
+Definition deser_function (fuel : nat) (f : FunctionP) : res IFunction :=
   if negb (nodup_str (f_inputs f)) then Raise OtherError else
   let vis := vinfo_dict (f_vinfo f) in
-  ins <- mapM (fun n => v <- (if fixA then maybe_info vis n (new_value n) else Ok (new_value n)) ;; Ok (n, v))
+  ins <- mapM (fun n => v <- maybe_info vis n (new_value n) ;; Ok (n, v))
               (f_inputs f) ;;
   let cur0 : scope := dict_of ins in
   cur1 <- foldM (declare_outputs vis []) (f_nodes f) cur0 ;;
@@ -493,17 +489,17 @@ Definition attr_has_value (a : IAttr IGraph) : bool :=
 
 (* serde.serialize_function_into; also returns the value-infos that an IR < 10 model stores in the
    main graph (serde._serialize_experimental_value_info_for_function_ir9_into) *)
-Definition ser_function (fixB : bool) (fuel : nat) (irv : Z) (f : IFunction) : res (FunctionP * list VInfoP) :=
+Definition ser_function (fuel : nat) (irv : Z) (f : IFunction) : res (FunctionP * list VInfoP) :=
   let g := if_graph f in
   let vals := ig_values g in
   let create := FUNCTION_VALUE_INFO_SUPPORTED_VERSION <=? irv in
   let qual := if_domain f ++ [58; 58]%N ++ if_name f ++ [47]%N in
   ins <- mapM (getv vals) (ig_inputs g) ;;
-  attrs <- mapM (fun a => if attr_has_value a then x <- ser_attr (ser_graph fixB fuel None) a ;; Ok [x] else Ok [])
+  attrs <- mapM (fun a => if attr_has_value a then x <- ser_attr (ser_graph fuel None) a ;; Ok [x] else Ok [])
                 (if_attrs f) ;;
   outs <- mapM (fun o => match o with OKey k => v <- getv vals k ;; Ok (v_name v) | OFresh v => Ok (v_name v) end)
                (ig_outputs g) ;;
-  nodes <- mapM (fun n => np <- ser_node (ser_graph fixB fuel None) (Some irv) n ;;
+  nodes <- mapM (fun n => np <- ser_node (ser_graph fuel None) (Some irv) n ;;
                   vs <- mapM (fun k => match k with [] => Ok [] | _ => v <- getv vals k ;; Ok [v] end) (in_outputs n) ;;
                   Ok (np, filter should_create (concat vs))) (ig_nodes g) ;;
   let info_values := filter should_create ins ++ concat (map snd nodes) in
@@ -532,28 +528,12 @@ Fixpoint funcs_dict (acc : list IFunction) (l : list IFunction) : list IFunction
 
 Definition has_slash (s : str) : bool := existsb (N.eqb 47) s.
 
-(* RecursiveGraphIterator (Graph.all_nodes / Function.all_nodes) iterates `attr.value` of every attribute
-   whose type is GRAPH/GRAPHS, including reference attributes, whose value is None: TypeError.
-   deserialize_model runs it (in _resolve_node_device_configurations) when the model has configurations. *)
-Definition is_refgraph (a : IAttr IGraph) : bool :=
-  match ia_val a with
-  | IARef _ ty => (ty =? AttributeType_GRAPH) || (ty =? AttributeType_GRAPHS)
-  | _ => false
-  end.
-Definition inode_refgraph {G} (rec : G -> bool) (n : INode G) : bool :=
-  existsb (fun a => match ia_val a with
-                    | IARef _ ty => (ty =? AttributeType_GRAPH) || (ty =? AttributeType_GRAPHS)
-                    | IAGraph g => rec g
-                    | IAGraphs l => existsb rec l
-                    | _ => false end) (in_attrs n).
-Fixpoint ig_refgraph (g : IGraph) : bool := existsb (inode_refgraph ig_refgraph) (ig_nodes g).
-
 (* serde.deserialize_model.  Not modelled (Raise OtherError): the IR < 10 experimental format that
    stores function value-info in the main graph under names "domain::function/value".
-   _resolve_node_device_configurations replaces placeholder configuration objects by the model's
+   _resolve_node_device_configurations (which walks all nodes; reference attributes are skipped by the
+   traversal) replaces placeholder configuration objects by the model's
    objects of the same name; only the name is serialized, so it is the identity here. *)
-(* fixD: the tree has the repair of finding "ref-graph-attr-crash" *)
-Definition deser_model_fuel (fixA fixD : bool) (fuel : nat) (m : ModelP) : res IModel :=
+Definition deser_model_fuel (fuel : nat) (m : ModelP) : res IModel :=
   let irv := dflt 0 (m_irv m) in
   if (irv <? FUNCTION_VALUE_INFO_SUPPORTED_VERSION) && nonempty (m_funcs m)
      && existsb (fun vi => has_slash (dflt [] (vi_name vi))) (g_vinfo (m_graph m))
@@ -561,19 +541,17 @@ Definition deser_model_fuel (fixA fixD : bool) (fuel : nat) (m : ModelP) : res I
   g <- deser_graph fuel [] (m_graph m) ;;
   let g' := mkIGraph (ig_name g) (ig_doc g) (ig_meta g) (dict_of (m_opsets m)) (ig_inputs g) (ig_inits g)
                      (ig_nodes g) (ig_outputs g) (ig_values g) in
-  fs <- mapM (deser_function fixA fuel) (m_funcs m) ;;
-  if negb fixD && nonempty (m_conf m) && (ig_refgraph g || existsb (fun f => ig_refgraph (if_graph f)) (funcs_dict [] fs))
-  then Raise TypeError else
+  fs <- mapM (deser_function fuel) (m_funcs m) ;;
   Ok (mkIModel irv (m_pname m) (m_pver m) (m_domain m) (m_mver m) (m_doc m) g' (funcs_dict [] fs)
                (dict_of (m_meta m))
                (map (fun c => (dflt [] (dc_name c), dflt 0 (dc_num c), dc_devices c)) (m_conf m))).
-Definition deser_model (fixA fixD : bool) (m : ModelP) : res IModel := deser_model_fuel fixA fixD (mdepth m) m.
+Definition deser_model (m : ModelP) : res IModel := deser_model_fuel (mdepth m) m.
 
 (* serde.serialize_model_into *)
-Definition ser_model_fuel (fixB : bool) (fuel : nat) (m : IModel) : res ModelP :=
+Definition ser_model_fuel (fuel : nat) (m : IModel) : res ModelP :=
   let irv := im_irv m in
-  g <- ser_graph fixB fuel (Some irv) (im_graph m) ;;
-  fs <- mapM (ser_function fixB fuel irv) (im_funcs m) ;;
+  g <- ser_graph fuel (Some irv) (im_graph m) ;;
+  fs <- mapM (ser_function fuel irv) (im_funcs m) ;;
   let extra := concat (map snd fs) in
   let g' := mkGraphP (g_name g) (g_doc g) (g_inputs g) (g_inits g) (g_nodes g) (g_outputs g)
                      (g_vinfo g ++ extra) (g_quant g) (g_meta g) in
@@ -583,14 +561,13 @@ Definition ser_model_fuel (fixB : bool) (fuel : nat) (m : IModel) : res ModelP :
                g' (ksort (im_meta m)) (map fst fs)
                (if irv <? MULTI_DEVICE_SUPPORTED_VERSION then []
                 else map (fun c => mkDevConfP (Some (fst (fst c))) (Some (snd (fst c))) (snd c)) (im_conf m))).
-Definition ser_model (fixB : bool) (m : IModel) : res ModelP := ser_model_fuel fixB (imdepth m) m.
+Definition ser_model (m : IModel) : res ModelP := ser_model_fuel (imdepth m) m.
 
 (* entry points for the other message kinds (from_proto / to_proto dispatch) *)
 Definition deser_graph_top (g : GraphP) : res IGraph := deser_graph (gdepth g) [] g.
-Definition ser_graph_top (fixB : bool) (g : IGraph) : res GraphP := ser_graph fixB (igdepth g) None g.
-Definition roundtrip_model (fixA fixB fixD : bool) (m : ModelP) : res ModelP :=
-  im <- deser_model fixA fixD m ;; ser_model fixB im.
-Definition roundtrip_graph (fixB : bool) (g : GraphP) : res GraphP := ig <- deser_graph_top g ;; ser_graph_top fixB ig.
+Definition ser_graph_top (g : IGraph) : res GraphP := ser_graph (igdepth g) None g.
+Definition roundtrip_model (m : ModelP) : res ModelP := im <- deser_model m ;; ser_model im.
+Definition roundtrip_graph (g : GraphP) : res GraphP := ig <- deser_graph_top g ;; ser_graph_top ig.
 Definition roundtrip_tensor (t : TensorP) : res TensorP := it <- deser_tensor t ;; Ok (ser_tensor it).
 Definition roundtrip_type (t : TypeP) : res TypeP :=
   sh <- type_shape t ;; ty <- type_type t ;; Ok (ser_type_shape ty sh).
